@@ -37,7 +37,7 @@ func c12(c *vc.Ctx) {
 		maxLen, len(c12Alphabet), c12Alphabet, map[bool]string{false: "", true: fmt.Sprintf(", and every sequence of length 5 over the %d-token sub-alphabet %q", len(c12Alphabet5), c12Alphabet5)}[len5 == 5], len(progs), len(c12Templates), len(c12Words), depth, []string{"the core subset c12CoreSubs", "every depth-1 program with default words", "every depth-1 program"}[subs], unclosedLen)
 	c.Assumptions = []string{
 		"bash 5.2.15 and the installed dash are the reference shells; acceptance by a shell is judged as the repository's confirmParse does: `<shell> -n` with the program on stdin, rejected iff non-zero exit status or a non-empty stderr line without \"warning:\"",
-		"throughput: one long-lived process per shell and batch parses each case without executing it (eval of `return 0; __g() { CASE\\n}` and of `return 0; if false; then CASE\\nfi`; accepted iff both parse); this in-process verdict is validated against real `<shell> -n` processes: every in-process ACCEPT is re-judged by `<shell> -n` on the concatenation of the accepted cases of the batch (bisecting on rejection), every in-process REJECT whose text hash falls on a deterministic stride is re-judged by its own process, and every divergence from the parser is re-judged by its own process before it is reported (counters wrapper_*); remaining in-process REJECT verdicts that agree with the parser are trusted on the strength of that validation",
+		"throughput: one long-lived process per shell and batch parses each case without executing it (eval of `return 0; __g() { CASE\\n}` and of `return 0; if false; then CASE\\nfi`; accepted iff both parse); this in-process verdict is validated against real `<shell> -n` processes: every in-process ACCEPT is re-judged by `<shell> -n` on the concatenation of the accepted cases of the batch (bisecting on rejection), every in-process REJECT whose text hash falls on a deterministic stride is re-judged by its own process, and divergences from the parser are re-judged by their own process before they are reported (every unclassified one up to 40 per batch and language, the first 2 of each class per batch; a reported failure is re-executed alone, which uses the real process only); the real verdict wins and mismatches are counted and listed (wrapper_*); remaining in-process REJECT verdicts that agree with the parser are trusted on the strength of that validation",
 		"the documented intentional differences (repository tables: flipConfirm entries of syntax/parser_test.go) are named predicates in c12_class.go; cases matching one are counted (intentional_*) and not compared",
 	}
 	c.Reruns = 1
